@@ -4813,7 +4813,9 @@ func (p *Posix) GetObjectLegalHold(_ context.Context, bucket, object, versionId 
 		return nil, fmt.Errorf("get object lock config: %w", err)
 	}
 
-	result := data[0] == 1
+	// an empty value (an attribute file of the sidecar store that was created
+	// but not yet written when the gateway stopped) is no legal hold
+	result := len(data) > 0 && data[0] == 1
 
 	return &result, nil
 }
